@@ -8,9 +8,9 @@ SPEC = dict(
     level_note="Kernel scope: relocation sites inside sections (write_absolute_relocation: needs ObjectLayout/Layout) are outside, "
                "including the parity choice for sections placed at odd addresses; glibc elf_dynamic_do_Relr / RELA semantics transcribed.",
     overlays=[(W, "harness/libwild/elf_writer_c23.rs")],
-    jobs=2,
+    jobs=3,
     harnesses=[dict(fn=f"c09_got_{n}", file=W, timeout=1500, tiers=t) for n, t in [
-        ("dyn_pie_relr", ["quick", "thorough"]), ("dyn_pie_rela", ["quick", "thorough"]),
+        ("dyn_pie_relr", ["quick", "thorough"]), ("dyn_pie_rela", ["thorough"]),
         ("static_pie_relr", ["thorough"]), ("static_pie_rela", ["thorough"]), ("shared_relr", ["thorough"]), ("shared_rela", ["thorough"])]],
     functions_encoded=["elf_writer::TableWriter::process_resolution", "TableWriter::write_address_relocation", "elf::Elf::allocate_resolution",
                        "elf::Elf::create_resolution"],
